@@ -472,6 +472,17 @@ def C07.reuseHolds (c : Ctx) (j : Journal) : Bool :=
   let tainted := nodesOf c.dry c.st .tainted c.view.nodes
   !(j.any isResizeRequest) || tainted.all (fun x => (getNames j).contains x.name)
 
+/-- C10, "can be ... untainted like any other node": a tainted node protected by the no-delete annotation is handed
+    back before the cloud is asked for more, and in its turn (newest first), exactly like an unprotected one. -/
+def C10.untaintBad (c : Ctx) (j : Journal) : List String :=
+  let tainted := nodesOf c.dry c.st .tainted c.view.nodes
+  let attempted := getNames j
+  if c.dry then [] else
+  (tainted.filter (fun x => protectedNode x && !attempted.contains x.name &&
+      (j.any isResizeRequest || tainted.any (fun y => attempted.contains y.name && decide (y.created < x.created))))).map (fun x =>
+    "protected tainted node " ++ x.name ++ " was passed over when capacity was needed (fetched: " ++ toString attempted ++
+    (if j.any isResizeRequest then ", and the cloud was asked for more" else "") ++ ")")
+
 /-- Amounts: walking the journal with the cloud group's current desired size and the number of
     accepted untaints so far, every increase asks for at least 1 and at most `want − untaints`, on top
     of the current desired size. -/
